@@ -6,6 +6,17 @@
 
 package json
 
+import (
+	"github.com/go-json-experiment/json/internal/jsonopts"
+	"github.com/go-json-experiment/json/jsontext"
+)
+
+// (the imports are used by the extern signatures in the contract comments)
+var (
+	_ jsonopts.Struct
+	_ jsontext.Kind
+)
+
 // Contracts for the reflection-free kernels of the arshal layer.
 
 // ---------------------------------------------------------------- uintSet
@@ -159,3 +170,84 @@ func inCutset(c byte, cutset string) bool {
 //@ ensures alias: sameOrFresh(result, b)
 //@ ensures prefix: vForall(0, len(b), func(k int) bool { return result[k] == old(b[k]) })
 //@ at call strconv.AppendUint#1 assert no-wrap: sec >= 0 && uint64(sec) < 18446744073 && (uint64(sec)*pow10)/pow10 == uint64(sec) && uint64(sec)*pow10+uint64(nsec)/(1000000000/pow10) >= uint64(sec)*pow10
+
+// ---------------------------------------------------------------- policing of user marshalers
+//
+// Type-level assumption about the marshal function a wrapper falls back to (the
+// next representation in the documented order; reflection code that is not under
+// contract): if it returns nil it has written exactly one value at the current
+// position as far as the state machine records it (same depth, one more element).
+// Every wrapper below is proved to satisfy the same statement, so that "nil
+// implies depth unchanged and length + 1" holds along any chain of wrappers
+// modulo the innermost default arshaler and the user's own method.
+//
+//@ extern funcvalue:prevMarshal(enc *jsontext.Encoder, va addressableValue, mo *jsonopts.Struct) (result error)
+//@ trusted ASSUMED: the next marshaler in the chain (reflection code, not under contract) writes exactly one value when it returns nil
+//@ requires enc != nil
+//@ modifies everything
+//@ ensures result == nil ==> export.Encoder(enc).Tokens.Depth() == old(export.Encoder(enc).Tokens.Depth()) && export.Encoder(enc).Tokens.Last.Length() == old(export.Encoder(enc).Tokens.Last.Length())+1
+
+//@ extern errors.Is(err, target error) (result bool)
+//@ trusted errors: pure predicate over the error chain; no side effects
+//@ ensures err == nil ==> !result
+
+//@ extern internal.NewMarshalerError(val any, err error, funcName string) (result error)
+//@ trusted injected by package v1 (inject.go): wraps err in a *MarshalerError; never returns nil
+//@ modifies everything
+//@ ensures result != nil
+
+//@ func newSemanticErrorWithPosition
+//@ trusted NOT PROVED (reflection-free but large): returns the *SemanticError it builds, never nil
+//@ modifies everything
+//@ ensures result != nil
+
+// The MarshalerTo wrapper (fourth function literal of makeMethodArshaler): it
+// returns nil only if the state machine is at the same depth with exactly one
+// more element than before the call, whatever the user's MarshalJSONTo did to the
+// encoder, and it falls through to the next representation (on ErrUnsupported)
+// only if neither depth nor length changed. (That depth and length suffice to
+// conclude "exactly one value was written" is NOT implied: finding F1.)
+//
+//@ func makeMethodArshaler$4
+//@ split
+//@ property C17 C02 C20
+//@ requires enc != nil && mo != nil
+//@ modifies everything
+//@ ensures one-value: result == nil ==> export.Encoder(enc).Tokens.Depth() == old(export.Encoder(enc).Tokens.Depth()) && export.Encoder(enc).Tokens.Last.Length() == old(export.Encoder(enc).Tokens.Last.Length())+1
+//@ at call prevMarshal#1 assert untouched: prevDepth == currDepth && prevLength == currLength
+
+//@ extern funcvalue:prevUnmarshal(dec *jsontext.Decoder, va addressableValue, uo *jsonopts.Struct) (result error)
+//@ trusted ASSUMED: the next unmarshaler in the chain (reflection code, not under contract) reads exactly one value when it returns nil
+//@ requires dec != nil
+//@ modifies everything
+//@ ensures result == nil ==> export.Decoder(dec).Tokens.Depth() == old(export.Decoder(dec).Tokens.Depth()) && export.Decoder(dec).Tokens.Last.Length() == old(export.Decoder(dec).Tokens.Last.Length())+1
+
+// The UnmarshalerFrom wrapper (seventh function literal of makeMethodArshaler):
+// nil is returned only if depth is unchanged and exactly one more element was
+// read; ErrUnsupported falls through only if nothing was read.
+//
+//@ func makeMethodArshaler$7
+//@ split
+//@ property C17 C20
+//@ requires dec != nil && uo != nil
+//@ modifies everything
+//@ ensures one-value: result == nil ==> export.Decoder(dec).Tokens.Depth() == old(export.Decoder(dec).Tokens.Depth()) && export.Decoder(dec).Tokens.Last.Length() == old(export.Decoder(dec).Tokens.Last.Length())+1
+//@ at call prevUnmarshal#1 assert untouched: prevDepth == currDepth && prevLength == currLength
+
+// MarshalToFunc / UnmarshalFromFunc wrappers: the same one-value policing
+// around a caller-supplied function; ErrUnsupported is forwarded (to the lookup
+// loop) only if nothing was written/read.
+//
+//@ func MarshalToFunc$1
+//@ split
+//@ property C17 C02 C20
+//@ requires enc != nil && mo != nil
+//@ modifies everything
+//@ ensures one-value: result == nil ==> export.Encoder(enc).Tokens.Depth() == old(export.Encoder(enc).Tokens.Depth()) && export.Encoder(enc).Tokens.Last.Length() == old(export.Encoder(enc).Tokens.Last.Length())+1
+
+//@ func UnmarshalFromFunc$1
+//@ split
+//@ property C17 C20
+//@ requires dec != nil && uo != nil
+//@ modifies everything
+//@ ensures one-value: result == nil ==> export.Decoder(dec).Tokens.Depth() == old(export.Decoder(dec).Tokens.Depth()) && export.Decoder(dec).Tokens.Last.Length() == old(export.Decoder(dec).Tokens.Last.Length())+1
